@@ -924,3 +924,138 @@ pub fn gen_doc(rng: &mut Rng, schema: &SchemaModel, cfg: &GenCfg) -> (Doc, BTree
     }
     (Doc { defs }, features)
 }
+
+// ---------------------------------------------------------------------------------------------
+// configuration texts
+
+#[derive(Clone, Debug, PartialEq, Eq)]
+pub enum ScalarCfg {
+    Single(String),
+    SendReceive { send: String, receive: String },
+    Separate { resolver_output: String, resolver_input: String, operation_output: String, operation_input: String },
+}
+
+#[derive(Clone, Debug)]
+pub struct ProjectCfg {
+    pub mode: &'static str,
+    pub scalars: Vec<(String, ScalarCfg)>,
+    pub allow_undefined_as_optional_input: Option<bool>,
+    pub emit_schema_runtime: bool,
+    /// extra lines under `extensions.nitrogql.generate` (already indented by 6 spaces)
+    pub extra_generate_lines: Vec<String>,
+}
+
+pub const MODES: [&str; 3] = ["with-loader-ts-5.0", "with-loader-ts-4.0", "standalone-ts-4.0"];
+
+/// scalar mapping for the custom scalars of a schema; `clash` makes a mapping mention an identifier that is
+/// also the name of a schema type (the name-clash situation of the schema declaration file)
+pub fn gen_project_cfg(rng: &mut Rng, schema: &SchemaModel, clash: bool) -> ProjectCfg {
+    let texts = ["string", "number", "string | number", "Date", "bigint", "unknown", "Record<string, unknown>", "{ readonly raw: string }"];
+    let mut scalars = vec![];
+    for t in schema.types().filter(|t| t.kind == TypeKind::Scalar) {
+        let mut pick = |rng: &mut Rng| -> String {
+            if clash && rng.chance(1, 3) {
+                // an identifier equal to some schema type name
+                let names: Vec<&TypeDef> = schema.types().collect();
+                return names[rng.below(names.len())].name.clone();
+            }
+            texts[rng.below(texts.len())].to_string()
+        };
+        let c = match rng.below(4) {
+            0 | 1 => ScalarCfg::Single(pick(rng)),
+            2 => ScalarCfg::SendReceive { send: pick(rng), receive: pick(rng) },
+            _ => ScalarCfg::Separate { resolver_output: pick(rng), resolver_input: pick(rng), operation_output: pick(rng), operation_input: pick(rng) },
+        };
+        scalars.push((t.name.clone(), c));
+    }
+    // sometimes also remap a built-in scalar
+    if rng.chance(1, 4) {
+        scalars.push(("ID".into(), ScalarCfg::Single("string".into())));
+    }
+    ProjectCfg {
+        mode: MODES[rng.below(3)],
+        scalars,
+        allow_undefined_as_optional_input: match rng.below(3) {
+            0 => None,
+            1 => Some(true),
+            _ => Some(false),
+        },
+        emit_schema_runtime: false,
+        extra_generate_lines: vec![],
+    }
+}
+
+fn yaml_str(s: &str) -> String {
+    format!("\"{}\"", s.replace('\\', "\\\\").replace('"', "\\\""))
+}
+
+impl ProjectCfg {
+    /// `graphql.config.yaml` text; `schema`/`documents` globs are relative to the project directory
+    pub fn yaml(&self, schema_glob: &str, documents_glob: &str, outputs: &[(&str, &str)]) -> String {
+        let mut s = String::new();
+        s.push_str(&format!("schema: {}\n", yaml_str(schema_glob)));
+        s.push_str(&format!("documents: {}\n", yaml_str(documents_glob)));
+        s.push_str("extensions:\n  nitrogql:\n    generate:\n");
+        s.push_str(&format!("      mode: {}\n", self.mode));
+        for (k, v) in outputs {
+            s.push_str(&format!("      {k}: {}\n", yaml_str(v)));
+        }
+        if self.emit_schema_runtime {
+            s.push_str("      emitSchemaRuntime: true\n");
+        }
+        for l in &self.extra_generate_lines {
+            s.push_str(l);
+            s.push('\n');
+        }
+        if !self.scalars.is_empty() || self.allow_undefined_as_optional_input.is_some() {
+            s.push_str("      type:\n");
+            if let Some(b) = self.allow_undefined_as_optional_input {
+                s.push_str(&format!("        allowUndefinedAsOptionalInput: {b}\n"));
+            }
+            if !self.scalars.is_empty() {
+                s.push_str("        scalarTypes:\n");
+                for (n, c) in &self.scalars {
+                    match c {
+                        ScalarCfg::Single(t) => s.push_str(&format!("          {n}: {}\n", yaml_str(t))),
+                        ScalarCfg::SendReceive { send, receive } => {
+                            s.push_str(&format!("          {n}:\n            send: {}\n            receive: {}\n", yaml_str(send), yaml_str(receive)))
+                        }
+                        ScalarCfg::Separate { resolver_output, resolver_input, operation_output, operation_input } => s.push_str(&format!(
+                            "          {n}:\n            resolverOutput: {}\n            resolverInput: {}\n            operationOutput: {}\n            operationInput: {}\n",
+                            yaml_str(resolver_output),
+                            yaml_str(resolver_input),
+                            yaml_str(operation_output),
+                            yaml_str(operation_input)
+                        )),
+                    }
+                }
+            }
+        }
+        s
+    }
+    pub fn to_sexp(&self) -> crate::sexp::Sexp {
+        use crate::sexp::Sexp;
+        let sc = self
+            .scalars
+            .iter()
+            .map(|(n, c)| {
+                let (ro, ri, oo, oi) = match c {
+                    ScalarCfg::Single(t) => (t.clone(), t.clone(), t.clone(), t.clone()),
+                    ScalarCfg::SendReceive { send, receive } => (send.clone(), receive.clone(), receive.clone(), send.clone()),
+                    ScalarCfg::Separate { resolver_output, resolver_input, operation_output, operation_input } => {
+                        (resolver_output.clone(), resolver_input.clone(), operation_output.clone(), operation_input.clone())
+                    }
+                };
+                Sexp::call("scalar", vec![Sexp::str(n.as_str()), Sexp::str(ro), Sexp::str(ri), Sexp::str(oo), Sexp::str(oi)])
+            })
+            .collect();
+        Sexp::call(
+            "cfg",
+            vec![
+                Sexp::call("mode", vec![Sexp::str(self.mode)]),
+                Sexp::call("scalars", sc),
+                Sexp::call("allowUndefinedAsOptionalInput", vec![Sexp::bool(self.allow_undefined_as_optional_input.unwrap_or(true))]),
+            ],
+        )
+    }
+}
